@@ -76,7 +76,7 @@ def hist_schemas():
     """The schemas of the history scenario: the SDL texts above plus a code-built schema whose custom scalar passes Python values
     through (JSON-like), with defaults that are EQUAL as Python values but different GraphQL literals (true / 1 / 1.0, false / 0)."""
     from py_gql import build_schema
-    from py_gql.schema import Argument, Field, Int, ObjectType, ScalarType, Schema
+    from py_gql.schema import Argument, Field, Int, ListType, ObjectType, ScalarType, Schema
     schemas = []
     for s in HIST_SDL:
         try:
@@ -86,10 +86,13 @@ def hist_schemas():
     Any = ScalarType("Any", serialize=lambda v: v, parse=lambda v: v)
     q = ObjectType("Query", [
         Field("f", Int, [Argument("yes", Any, default_value=True), Argument("one", Any, default_value=1), Argument("onef", Any, default_value=1.0)]),
-        Field("g", Int, [Argument("zero", Any, default_value=0), Argument("no", Any, default_value=False), Argument("zerof", Any, default_value=0.0)])])
+        Field("g", Int, [Argument("zero", Any, default_value=0), Argument("no", Any, default_value=False), Argument("zerof", Any, default_value=0.0)]),
+        # ... and the same values side by side INSIDE one list default
+        Field("h", Int, [Argument("mix", ListType(Any), default_value=[True, 1, False, 0, 1.0, 0.0])])])
     q2 = ObjectType("Query", [
         Field("f", Int, [Argument("one", Any, default_value=1), Argument("yes", Any, default_value=True)]),
-        Field("g", Int, [Argument("no", Any, default_value=False), Argument("zero", Any, default_value=0)])])
+        Field("g", Int, [Argument("no", Any, default_value=False), Argument("zero", Any, default_value=0)]),
+        Field("h", Int, [Argument("mix", ListType(Any), default_value=[1, True, 0.0, False, 0])])])
     return schemas + [Schema(q), Schema(q2)]
 
 
@@ -270,15 +273,97 @@ def run(chk):
         text = sch.to_string()
         for f in sch.query_type.fields:
             for a in f.arguments:
-                want = {True: "true", False: "false"}.get(a.default_value) if isinstance(a.default_value, bool) else repr(a.default_value)
-                if "%s: Any = %s" % (a.name, want) not in text:
+                def lit(v):
+                    return "[%s]" % ", ".join(lit(x) for x in v) if isinstance(v, list) else {True: "true", False: "false"}[v] if isinstance(v, bool) else repr(v)
+                want = lit(a.default_value)
+                if "%s: %s = %s" % (a.name, a.type, want) not in text:
                     out.setdefault("sdl/default-literal/custom-scalar/%s" % type(a.default_value).__name__,
                                    ["a default of a pass-through custom scalar is printed as another literal", {"argument": a.name, "value": repr(a.default_value), "text": text}])
+    sdl_origin_probe(out)
+    failure_history_probe(out)
     for k, (what, wit) in out.items():
+        if k.startswith("note/"):
+            chk.notes[k] = wit
+            continue
         chk.diverge(k, wit, what)
     chk.sample({"call_sequence": seqs[len(seqs) // 2]})
     chk.assumptions += ["descriptions are single short lines (no re-wrapping)", "enum internal values are not expressible in SDL: defaults are compared through enum names"]
     return chk.finish(rule="schemas of the TLA+ algebras x 3 option sets (round trip) + all print call sequences of length %d in fresh processes" % calls)
+
+
+def sdl_origin_probe(out):
+    """The store values of GqlSchemaOps realised FROM SDL (every element then carries the syntax node it was built from) and changed
+    afterwards by the library's own transforms / by assigning defaults: the text is a function of the CURRENT value of the schema, so
+    the round trip must hold for the changed schema exactly as for a schema built in code."""
+    from py_gql import build_schema
+    from py_gql.schema.transforms import CamelCaseSchemaTransform, VisibilitySchemaTransform, transform_schema
+    base_sdl = HIST_SDL[0] + """
+input Page { page_size: Int = 10  sort_order: Lvl = LO }
+extend type Query { find(page_options: Page = {page_size: 25, sort_order: HI}, first_n: Int = 3): Int }
+"""
+
+    class HideB(VisibilitySchemaTransform):
+        def is_field_visible(self, typename, fieldname):
+            return (typename, fieldname) != ("Query", "b")
+
+        def is_input_field_visible(self, typename, fieldname):
+            return (typename, fieldname) != ("Page", "sort_order")
+    try:
+        built = build_schema(base_sdl)
+    except Exception as e:
+        out.setdefault("sdl/history-schema-does-not-build/%s/sdl-origin" % type(e).__name__, ["a valid type-system document is rejected", {"sdl": base_sdl, "error": repr(e)[:300]}])
+        return
+    variants = [("camel-case", lambda: transform_schema(built, CamelCaseSchemaTransform())),
+                ("hidden-members", lambda: transform_schema(built, HideB()))]
+
+    def reassigned():
+        s2 = build_schema(base_sdl)
+        f = s2.query_type.field_map["find"]
+        f.argument_map["first_n"].default_value = 4
+        f.argument_map["page_options"].default_value = {"page_size": 1, "sort_order": "LO"}
+        return s2
+    variants.append(("defaults-reassigned", reassigned))
+    for label, make in variants:
+        try:
+            schema = make()
+        except Exception as e:
+            out.setdefault("sdl/harness-realize/%s/sdl-origin-%s" % (type(e).__name__, label), ["cannot realise", {"error": repr(e)[:300]}])
+            continue
+        for o in OPTS:
+            roundtrip(schema, o, "sdl-origin+" + label, out, {"source": "sdl-origin", "label": label})
+
+
+def failure_history_probe(out):
+    """Builds are independent of each other: a document that is REJECTED leaves nothing behind - the valid documents built
+    before it build again afterwards, to the same schema (same text)."""
+    from py_gql import build_schema
+    good = ["input Filter { limit: Int = 10  tags: [String!] = [] }\ntype Query { f(by: Filter = {limit: 1}): Int }",
+            "enum Lvl { LO HI }\ninput Page { size: Int = 5  lvl: Lvl = LO  next: Page }\ntype Query { g(p: Page = {size: 2}): Lvl }"]
+    bad = ['input Filter { limit: Int = "ten" }\ntype Query { f(by: Filter): Int }', "input Filter { limit: Nope }\ntype Query { f(by: Filter): Int }",
+           "input Page { size: Int = {a: 1} }\ntype Query { g(p: Page): Int }", "enum Lvl { LO LO }\ntype Query { g: Lvl }",
+           "type Query { g(p: Page = {size: \"x\"}): Int }\ninput Page { size: Int }", "type Query implements Nope { a: Int }"]
+    try:
+        before = [build_schema(g).to_string() for g in good]
+    except Exception as e:
+        out.setdefault("sdl/history-schema-does-not-build/%s/failure-history" % type(e).__name__, ["a valid type-system document is rejected", {"error": repr(e)[:300]}])
+        return
+    for b in bad:
+        try:
+            build_schema(b)
+            out.setdefault("note/failure-history/accepted", ["(not judged here) a document meant to be rejected builds", {"sdl": b}])
+        except Exception:
+            pass
+        for g, t0 in zip(good, before):
+            try:
+                t1 = build_schema(g).to_string()
+            except Exception as e:
+                out.setdefault("sdl/history/build-depends-on-an-earlier-rejected-document/%s" % type(e).__name__,
+                               ["a valid document no longer builds after another document was rejected", {"rejected": b, "sdl": g, "error": repr(e)[:300]}])
+                return
+            if t1 != t0:
+                out.setdefault("sdl/history/text-depends-on-an-earlier-rejected-document", ["a valid document builds to another schema after another document was rejected",
+                                                                                          {"rejected": b, "sdl": g, "before": t0, "after": t1}])
+                return
 
 
 def replay_cmd(path):
